@@ -459,7 +459,7 @@ func (e *Engine) callees(ci ssa.CallInstruction) []*ssa.Function {
 	if c.IsInvoke() {
 		if e.closedWorld(c.Value.Type()) {
 			var out []*ssa.Function
-			for _, im := range e.implementers(c.Value.Type(), c.Method.Name()) {
+			for _, im := range e.homeImpls(ci) {
 				out = append(out, im.fn)
 			}
 			return out
@@ -525,6 +525,38 @@ func (e *Engine) directFrame(f *ssa.Function, fs *frameSet) {
 }
 
 // callFrameShallow: effect of one call instruction using the current (possibly partial) frames.
+// homeImpls: the package implementers an interface call in the given function can reach, pruned by
+// the function's dispatch clause (which the function's own verification proves).
+func (e *Engine) homeImpls(ci ssa.CallInstruction) []implementer {
+	c := ci.Common()
+	impls := e.implementers(c.Value.Type(), c.Method.Name())
+	fn := ci.Parent()
+	for fn != nil && fn.Parent() != nil {
+		fn = fn.Parent()
+	}
+	if fn == nil {
+		return impls
+	}
+	ct := e.contracts.Funcs[fnKey(fn, e.home)]
+	if ct == nil || ct.Dispatch == nil {
+		return impls
+	}
+	allowed, ok := ct.Dispatch[e.ifaceKey(c.Value.Type(), c.Method.Name())]
+	if !ok {
+		return impls
+	}
+	var keep []implementer
+	for _, im := range impls {
+		name := strings.ReplaceAll(types.TypeString(im.typ, func(p *types.Package) string { return "" }), ".", "")
+		for _, a := range allowed {
+			if a == name {
+				keep = append(keep, im)
+			}
+		}
+	}
+	return keep
+}
+
 func (e *Engine) callFrameShallow(ci ssa.CallInstruction) frameSet {
 	out := frameSet{keys: map[string]Sort{}}
 	c := ci.Common()
@@ -564,7 +596,7 @@ func (e *Engine) callFrameShallow(ci ssa.CallInstruction) frameSet {
 		if ct := e.contracts.Funcs[ikey]; ct != nil {
 			e.rawModifies(ct, &out)
 			// the package's own implementers may also be the dynamic type
-			for _, im := range e.implementers(c.Value.Type(), c.Method.Name()) {
+			for _, im := range e.homeImpls(ci) {
 				if im.fn.Pkg != nil && e.homes[im.fn.Pkg.Pkg] {
 					fs := e.frameOfCached(im.fn)
 					if fs.all {
@@ -578,7 +610,7 @@ func (e *Engine) callFrameShallow(ci ssa.CallInstruction) frameSet {
 			return out
 		}
 		if !e.closedWorld(c.Value.Type()) && !e.exportedHomeIface(c.Value.Type()) {
-			for _, im := range e.implementers(c.Value.Type(), c.Method.Name()) {
+			for _, im := range e.homeImpls(ci) {
 				if im.fn.Pkg != nil && e.homes[im.fn.Pkg.Pkg] {
 					fs := e.frameOfCached(im.fn)
 					if fs.all {
